@@ -158,6 +158,19 @@ def run_single(ctx, rng, N):
                        dict(replay, lats=lats, latname=latname))
         except Exception as e:
             ctx.violation("C08:%s:coslat:error" % cls, "%s(use_coslat=True) with latitude dimension %r raised %r" % (cls, latname, e), dict(replay, lats=lats, latname=latname))
+        # ---- the same equivalence for a field held as integers (counts, packed archive data): the weights are what they are whatever the field's dtype
+        if not cplx:
+            for dt in ("int32", "int16", "float32"):
+                Xi = np.round(np.nan_to_num(X) * (100 if dt != "int16" else 20)).astype(dt) if dt.startswith("int") else np.nan_to_num(X).astype(dt)
+                di = as_da(Xi, latname, lats)
+                ctx.case(("coslat-dtype", cls, dt, n, nlat, nlon, i), nontrivial=True, tag="%s/coslat/dtype=%s" % (cls, dt), sample=dict(cls=cls, test="coslat", dtype=dt))
+                try:
+                    a = fitted(make, di, center=True, use_coslat=True)
+                    b = fitted(make, di, w=wl, center=True, use_coslat=False)
+                    same_model(ctx, "C08:%s:coslat:dtype" % cls, "%s: use_coslat vs weights sqrt(cos(lat)) on a field of dtype %s" % (cls, dt), a, b,
+                               dict(replay, lats=lats, latname=latname, dtype=dt), tol=1e-4 if dt == "float32" else 1e-6)
+                except Exception as e:
+                    ctx.violation("C08:%s:coslat:dtype:error" % cls, "%s(use_coslat=True) on a field of dtype %s raised %r" % (cls, dt, e), dict(replay, dtype=dt))
         # ---- both at once: use_coslat together with user weights is the product of the two, each applied once
         w2 = 0.2 + rng.random((nlat, nlon)) * 3
         w2d = xr.DataArray(w2, dims=(latname, "lon"), coords={latname: lats, "lon": dl.lon})
